@@ -3686,6 +3686,11 @@ where
                             // work-in-progress track has offset,
                             // so deduct that offset from this index point's
 
+                            // an index point cannot come before its track's start
+                            if offset.into() < (*track_offset).into() {
+                                return Err(CuesheetError::IndexPointsOutOfSequence);
+                            }
+
                             cuesheet::Index {
                                 number,
                                 offset: offset - *track_offset,
